@@ -60,12 +60,13 @@ def build(sel):
         arr.set_annotation("charge", np.array([0, sel["charge"], -sel["charge"], 0], dtype=int))
     if opt & 8:
         arr.set_annotation("atom_id", np.array([IDS[sel["aid"]] - 3, IDS[sel["aid"]] - 2, IDS[sel["aid"]] - 1, IDS[sel["aid"]]]))
-    if sel["bonds"] and not (opt & 8 and IDS[sel["aid"]] - 3 < 1):
-        # (CONECT parsing requires positive, increasing atom ids)
+    if sel["bonds"] and not (opt & 8 and (IDS[sel["aid"]] - 3 < 1 or (not sel["hybrid"] and IDS[sel["aid"]] > 99999))):
+        # (CONECT parsing requires positive, increasing atom ids: without hybrid-36 ids beyond 99999 wrap around to 1)
         # (0, 2): between chains, same residue number and insertion code when rid selects 1 (e.g. a disulfide bridge of a homodimer)
         arr.bonds = struc.BondList(n, np.array([[2, 3, 1], [1, 2, 2], [0, 1, 1], [0, 2, 1]]))
     if sel["box"]:
-        arr.box = np.diag([10.0, 20.5, 30.25]).astype(np.float32)
+        # (the second cell fills the CRYST1 length columns completely: b = 10000.000, c = 12345.678)
+        arr.box = np.diag([10.0, 20.5, 30.25] if sel["box"] == 1 else [40.0, 10000.0, 12345.678]).astype(np.float32)
     if sel["models"] == 2:
         st = struc.stack([arr, arr])
         st.coord[0] = np.array([[1.0 + i, 2.0 + i, 3.0 + i] for i in range(n)], dtype=np.float32)   # the awkward value is in model 2 only
@@ -162,14 +163,15 @@ def check_pdb(sel):
 CHAIN_IDS = [["A", "A", "B", "B"], ["", "", "B", "B"], ["", "", "", ""], ["A", "A", "", ""]]
 HETERO = [[False, False, True, True], [True, True, True, True], [False, False, False, False], [True, False, False, True]]
 KEYS = dict(chn=len(CHAIN_IDS), het=len(HETERO), name=len(ATOMN), resn=4, rid=len(IDS), coord=len(COORDS), catom=4, caxis=3, opt=16, bfac=len(BFACS), charge=10,
-            aid=len(IDS), bonds=2, box=2, models=2, hybrid=2)
+            aid=len(IDS), bonds=2, box=3, models=2, hybrid=2)
 DEFAULT = dict(chn=0, het=0, name=0, resn=0, rid=0, coord=0, catom=0, caxis=0, opt=0, bfac=0, charge=1, aid=0, bonds=0, box=0, models=1, hybrid=0)
 
 
 def ob_records(tier):
     groups = [("coord", "catom", "caxis", "models"), ("bfac", "opt", "catom"), ("name", "resn", "charge", "opt"),
               ("rid", "aid", "hybrid", "opt"), ("bonds", "box", "models", "hybrid", "opt"),
-              ("het", "models", "bonds", "resn", "box"), ("chn", "rid", "hybrid", "models")]
+              ("het", "models", "bonds", "resn", "box"), ("chn", "rid", "hybrid", "models"),
+              ("bonds", "aid", "hybrid", "opt")]
     if tier == "thorough":
         groups += [("coord", "bfac", "opt", "models", "catom"), ("name", "rid", "aid", "hybrid", "opt")]
     cases = []
